@@ -149,6 +149,7 @@ class Printer:
         self.default_file = None
         self.byref_captures = set()     # decl ids of non-reference variables a lambda captures by reference
         self.renamed = {}               # decl id -> printed name, for parameters whose C++ name repeats (expanded packs)
+        self.loop_lhs = {}              # loop ordinal -> printed counter side of the bounding comparison (NV_LOOPLHS_<c_name>_<k>)
         self.loop_bounds = {}           # loop ordinal -> printed bound expression of the loop condition (NV_LOOPBOUND_<c_name>_<k>)
         self.auto_loops = {}            # loop ordinal -> default contract of a canonical counting loop (NV_AUTOLOOP_<c_name>_<k>)
         self.try_stack = []             # enclosing try blocks: (handler label, scope depth at the try) -- see stmt1 CXXTryStmt
@@ -1019,18 +1020,22 @@ class Printer:
         return None
 
     def loop_bound_expr(self, cond, counter):
-        """NV_LOOPBOUND_<c_name>_<k>: the expression the loop's condition compares its counter with (`kbest <= max_kbest` ->
-        `max_kbest`), printed from the current source: a contract that says "counter <= bound + 1" keeps following the bound when a
-        maintainer renames it or moves it into a local"""
+        """NV_LOOPBOUND_<c_name>_<k> / NV_LOOPLHS_<c_name>_<k>: the two sides of the comparison of the loop condition that bounds the
+        counter, printed from the current source: `kbest <= max_kbest` -> (kbest, max_kbest); `bin + 1 < bins` -> ((bin + 1), bins).
+        A contract that says "LHS <= BOUND" keeps following the loop when a maintainer renames the bound, moves it into a local, or
+        peels the last iteration off the loop"""
+        def mentions(n):
+            return any(y.get('kind') == 'DeclRefExpr' and self.renamed.get((y.get('referencedDecl') or {}).get('id'),
+                       (y.get('referencedDecl') or {}).get('name')) == counter for y in astload_walk(n))
+        def pure(n):
+            return not any(y.get('kind') in ('CallExpr', 'CXXMemberCallExpr', 'CXXOperatorCallExpr', 'CompoundAssignOperator') or
+                           (y.get('kind') == 'UnaryOperator' and y.get('opcode') in ('++', '--')) for y in astload_walk(n))
         for x in astload_walk(cond):
             if x.get('kind') == 'BinaryOperator' and x.get('opcode') in ('<', '<=', '>', '>=', '!='):
                 for ci, bi in ((0, 1), (1, 0)):
-                    u = unwrap(x['inner'][ci])
-                    if u.get('kind') == 'DeclRefExpr' and self.renamed.get(u['referencedDecl'].get('id'), u['referencedDecl'].get('name')) == counter:
-                        bound = x['inner'][bi]
-                        if any(y.get('kind') in ('CallExpr', 'CXXMemberCallExpr', 'CXXOperatorCallExpr', 'CompoundAssignOperator') for y in astload_walk(bound)):
-                            return None
-                        return '(' + self.expr(bound) + ')'
+                    if mentions(x['inner'][ci]) and not mentions(x['inner'][bi]) and pure(x['inner'][ci]) and pure(x['inner'][bi]):
+                        self.loop_lhs[self.loops] = '(' + self.expr(x['inner'][ci]) + ')'
+                        return '(' + self.expr(x['inner'][bi]) + ')'
         return None
 
     def find_loop_counter(self, cond, parts):
@@ -1050,6 +1055,16 @@ class Printer:
                             and u['referencedDecl'].get('kind') == 'VarDecl':
                         rid = u['referencedDecl'].get('id')
                         return self.renamed.get(rid, u['referencedDecl'].get('name'))
+        # the counter inside a small arithmetic expression (`bin + 1 < bins`)
+        for x in astload_walk(cond):
+            if x.get('kind') == 'BinaryOperator' and x.get('opcode') in ('<', '<=', '>', '>=', '!='):
+                for side in x['inner']:
+                    refs = {(y['referencedDecl'].get('id'), y['referencedDecl'].get('name')) for y in astload_walk(side)
+                            if y.get('kind') == 'DeclRefExpr' and (y.get('referencedDecl') or {}).get('id') in advanced
+                            and y['referencedDecl'].get('kind') == 'VarDecl'}
+                    if len(refs) == 1 and not any(y.get('kind') in ('CallExpr', 'CXXMemberCallExpr', 'CXXOperatorCallExpr') for y in astload_walk(side)):
+                        rid, nm = list(refs)[0]
+                        return self.renamed.get(rid, nm)
         return None
 
     HOIST_OK = {'DeclStmt', 'ReturnStmt', 'CallExpr', 'CXXMemberCallExpr', 'CXXOperatorCallExpr', 'BinaryOperator',
